@@ -153,6 +153,8 @@ def small_layout(r, i):
         layout['via_defaults'] = True
     elif i % 5 == 4:
         layout['defaults_opposite'] = True
+    elif i % 5 == 1:
+        layout['zero_style'] = ('late', 'int')[(i // 5) % 2]      # the public attribute set after construction / zero_mode=1, 0
     return layout
 
 
